@@ -133,11 +133,12 @@ var props = map[string]*Prop{
 	},
 	"C02": {
 		Level: "exploration",
-		Rule: "program family: 45 hand-written base functions (straight-line, branching, counted/range/nested/sibling loops, break/continue/labels, slices, strings, same-package and cross-package calls, closures, recursion, methods, defer/recover/panic, maps, switch, bits, narrow ints, floats, named map types, select, goroutines, pointers, structs, effects) x refactoring catalogue applied by AST rewriting at EVERY applicable site singly, at all sites together, in every ordered pair of whole-function refactorings and all together: R1 rename params/results/locals, R2 labels, R3 the function itself, R4 reformat/comments, R5 reorder declarations (every other round), R6 >=/>/</<= written as the opposite test with branches exchanged (int and string), R7 exchange operands of int + * & | ^ == !=, R8 string literal replaced, R9 int literal outside [-16,16] replaced (R8/R9 default policy only). Each refactored function is compiled and executed natively on 576 inputs against its original (must be identical, else harness error). Oracle: equal fingerprints under the default policy (all) and with all literals kept (R1-R7); sfw diff status preserved. Non-trivial = distinct (base, refactoring, site).",
+		Rule: "(unit self-reference-shapes: 17 hand-written shapes of self reference that the fixed family signature cannot express - generic functions, methods incl. on generic types, method values/expressions, defer/go, closures calling the enclosing function, mutual recursion - each instantiated with every name of a 5-name pool; every entry of the function and its literals must keep its fingerprint under both policies.) program family: 59 hand-written base functions (straight-line, branching, counted/range/nested/sibling loops, break/continue/labels, slices, strings, same-package and cross-package calls, closures, recursion, methods, defer/recover/panic, maps, switch, bits, narrow ints, floats, named map types, select, goroutines, pointers, structs, effects) x refactoring catalogue applied by AST rewriting at EVERY applicable site singly, at all sites together, in every ordered pair of whole-function refactorings and all together: R1 rename params/results/locals, R2 labels, R3 the function itself, R4 reformat/comments, R5 reorder declarations (every other round), R6 >=/>/</<= written as the opposite test with branches exchanged (int and string), R7 exchange operands of int + * & | ^ == !=, R8 string literal replaced, R9 int literal outside [-16,16] replaced (R8/R9 default policy only). Each refactored function is compiled and executed natively on 576 inputs against its original (must be identical, else harness error). Oracle: equal fingerprints under the default policy (all) and with all literals kept (R1-R7); sfw diff status preserved. Non-trivial = distinct (base, refactoring, site).",
 		Assumptions: []string{"applicability of R6/R7 is decided by the family's variable-naming convention instead of a type checker; every variant is type-checked and natively validated before it is used", "R3 on functions containing closures or recursion is part of the family because the statement lists closures and recursion"},
 		Bounds:      map[string]string{"quick": "whole catalogue (the family is small enough)", "thorough": "same"},
 		Units: []Unit{
 			{Name: "refactorings", Pkg: "internal/cli", Test: "TestVerifC02", Shards: sh(16, 16), TimeoutS: sh(1200, 3600), DeadlineS: sh(600, 3000)},
+			{Name: "self-reference-shapes", Pkg: "pkg/diff", Test: "TestVerifC02Shapes", Shards: sh(6, 6), TimeoutS: sh(900, 900)},
 		},
 	},
 	"C03": {
@@ -161,7 +162,7 @@ var props = map[string]*Prop{
 	},
 	"C05": {
 		Level: "exploration",
-		Rule: "every base function of the program family (57 bodies: with and without loops, cross-package calls, string literals, defer/go/select/panic, closures, recursion, methods) is indexed with the real topology extraction and IndexFunction into a fresh Pebble database (in-memory FS) and a JSON store; every variant that differs only in identifier names (params/results/locals at every site and all together, labels, the function itself), formatting/comments and declaration order (every applicable site + compositions), plus the identical source, is scanned in exact and full mode at thresholds {0.01,0.5,0.75,0.9,0.99,1.0} against two database contents (signature alone; with decoys sharing its topology hash, its fuzzy hash, or nothing). Oracle: an alert for the indexed signature with confidence exactly 1.0. An end-to-end unit runs the built `sfw index` then `sfw scan` binary on 8 bodies, both back ends. Non-trivial = distinct (body, variant).",
+		Rule: "(besides the family: the 17 self-reference shapes of C02 - generic functions, methods, method values/expressions, defer/go, closures calling the enclosing function - indexed under one name and scanned under each name of a 5-name pool, every entry of the function.) every base function of the program family (57 bodies: with and without loops, cross-package calls, string literals, defer/go/select/panic, closures, recursion, methods) is indexed with the real topology extraction and IndexFunction into a fresh Pebble database (in-memory FS) and a JSON store; every variant that differs only in identifier names (params/results/locals at every site and all together, labels, the function itself), formatting/comments and declaration order (every applicable site + compositions), plus the identical source, is scanned in exact and full mode at thresholds {0.01,0.5,0.75,0.9,0.99,1.0} against two database contents (signature alone; with decoys sharing its topology hash, its fuzzy hash, or nothing). Oracle: an alert for the indexed signature with confidence exactly 1.0. An end-to-end unit runs the built `sfw index` then `sfw scan` binary on 8 bodies, both back ends. Non-trivial = distinct (body, variant).",
 		Assumptions: []string{"'identifier names' = identifiers the function itself declares, including its own name; renaming a same-package callee is not part of this check", "decoys are built to score below 1.0 so that exact mode (which returns one best alert) must return the indexed signature"},
 		Bounds:      map[string]string{"quick": "whole family x renaming catalogue", "thorough": "same"},
 		Units: []Unit{
@@ -191,9 +192,9 @@ var props = map[string]*Prop{
 	},
 	"C12": {
 		Level: "exploration",
-		Rule: "counted-loop family: IV type {int; thorough: int8, uint8} x shape {classic for, while-style, bottom-tested, exit-on-true `for { if c {break} ... }`, continue in body, extra break, conditional update, two latches with different updates} x test {<,<=,>,>=,!=} x step {1,2,3,5,-1,-2} x start {0,1,a} x bound {7,10,b} (2160 loops per type) + nested and sibling loops; every loop is analysed by the real DetectLoops/AnalyzeSCEV and each claimed {start,+,step} and trip count is compiled as a Go expression INTO an instrumented native twin that runs the same loop on all 256 argument vectors (a,b in -3..12) and compares every header evaluation (k-th value of the variable, modulo its width) and every activation's body count with the claim. Non-trivial = loop for which at least one claim was evaluated.",
+		Rule: "counted-loop family: IV type {int, int8, uint8; thorough: + int16, uint32} x shape {classic for, while-style, init-less for whose variable is conditionally re-seeded before it (two entering edges), bottom-tested after the update, bottom-tested before the update, exit-on-true `for { if c {break} ... }`, continue in body, extra break, conditional update, two latches with different updates} x test {<,<=,>,>=,!=} x step {1,2,3,5,-1,-2} x start {0,1,7,10,a} x bound {7,10,b} (4500 loops per type) + nested and sibling loops; every loop is analysed by the real DetectLoops/AnalyzeSCEV and each claimed {start,+,step} and trip count is compiled as a Go expression INTO an instrumented native twin that runs the same loop on all 256 argument vectors (a,b in -3..12) and compares every header evaluation (k-th value of the variable, modulo its width) and every activation's body count with the claim. Non-trivial = loop for which at least one claim was evaluated.",
 		Assumptions: []string{"claims that contain values the evaluator cannot bind (anything but constants and the two parameters) are counted as not evaluable and skipped", "argument vectors on which the loop does not terminate within the fuel are skipped (counted)"},
-		Bounds:      map[string]string{"quick": "int loops (2160) + 72 nested/sibling", "thorough": "int, int8, uint8 (6480) + 72 nested/sibling"},
+		Bounds:      map[string]string{"quick": "int, int8, uint8 (13500) + 72 nested/sibling", "thorough": "int, int8, uint8, int16, uint32 (22500) + 72 nested/sibling"},
 		Units: []Unit{
 			{Name: "loop-family", Pkg: "pkg/diff", Test: "TestVerifC12", Shards: sh(16, 16), TimeoutS: sh(1800, 3600)},
 		},
